@@ -1,7 +1,7 @@
 (* C10 — Command-line reference substitution is exact.  Property theorems only. *)
 From Coq Require Import String List Bool Permutation.
 Import ListNotations.
-Require Import V.Lib.PyStr V.Args.Model V.Args.Proofs.
+Require Import V.Lib.PyStr V.Args.Model V.Args.Proofs V.Args.Reports.
 Open Scope string_scope.
 
 (* For every list of declared references (any number, any spellings, any values), every argument
@@ -57,6 +57,89 @@ Proof.
   apply find_some in F as [I D]. rewrite (H r I) in D. discriminate.
 Qed.
 Print Assumptions C10_spec_untouched.
+
+(* ---- the two reports that make checkDataReferences reject a workflow
+   (UnusedDataReferenceError / UndeclaredDataReferenceError).
+   Unused: under `separated`, and if no token is a spelling of two different declared references,
+   the list reported unused is exactly (in declaration order) the declared substitutable references
+   none of whose two spellings is a token of the arguments. *)
+Theorem C10_unused : forall refs ps,
+  separated refs ps -> disjoint refs ps ->
+  unused_refs refs (flatten ps) = spec_unused refs ps /\
+  (forall a, In a (unused_refs refs (flatten ps)) <->
+     exists r, In r refs /\ a = r_abs r /\ r_sub r = true /\
+               ~ In (Tok (r_abs r)) ps /\ ~ In (Tok (r_rel r)) ps).
+Proof.
+  intros refs ps S D. pose proof (unused_exact refs ps S D) as E. split; [exact E|].
+  intros a. rewrite E. apply spec_unused_iff.
+Qed.
+Print Assumptions C10_unused.
+
+(* Unresolved: under `separated`, and if every colon of the command line is the colon of a reference
+   token (no colon in literal text or in a substituted value; every token holds ":<method>"), the
+   "possible unresolved reference" flag is raised iff some token of the arguments denotes no declared
+   reference. *)
+Theorem C10_unresolved : forall refs ps,
+  separated refs ps -> colon_free refs ps ->
+  (unresolved (resolve_args refs (flatten ps)) = true <->
+   exists t, In (Tok t) ps /\ forall r, In r refs -> denotes r t = false).
+Proof.
+  intros refs ps S C. rewrite (unresolved_exact refs ps S C). unfold spec_unresolved.
+  rewrite existsb_exists. split.
+  - intros [[s|t] [I U]]; [discriminate|]. exists t. split; [exact I|]. cbn in U.
+    apply negb_true_iff in U. unfold declared in U. intros r Hr.
+    destruct (denotes r t) eqn:D; [|reflexivity].
+    assert (X : existsb (fun r => denotes r t) refs = true) by (apply existsb_exists; exists r; auto).
+    congruence.
+  - intros [t [I U]]. exists (Tok t). split; [exact I|]. cbn. apply negb_true_iff.
+    unfold declared. destruct (existsb (fun r => denotes r t) refs) eqn:X; [|reflexivity].
+    apply existsb_exists in X as [r [Hr D]]. rewrite (U r Hr) in D. discriminate.
+Qed.
+Print Assumptions C10_unresolved.
+
+(* Both for a raw argument string read with the code's own recogniser: its tokens always hold
+   ":<method>", so only the literal text and the values have to be free of colons.  Consequence: the
+   workflow passes the two checks iff every declared substitutable reference is written and every
+   reference token is declared. *)
+Theorem C10_reports_string : forall refs args,
+  separated refs (tokenise args) -> disjoint refs (tokenise args) ->
+  (forall s, In (Lit s) (tokenise args) -> occurs ":" s = false) ->
+  (forall r, In r refs -> r_sub r = true -> occurs ":" (r_val r) = false) ->
+  unused_refs refs args = spec_unused refs (tokenise args) /\
+  unresolved (resolve_args refs args) = spec_unresolved refs (tokenise args).
+Proof.
+  intros refs args S D CL CV. rewrite <- (flatten_tokenise args) at 1 3. split.
+  - apply unused_exact; assumption.
+  - apply unresolved_exact; [exact S|]. repeat split; [exact CL| |exact CV].
+    intros t I. eapply tokenise_wf, I.
+Qed.
+Print Assumptions C10_reports_string.
+
+(* The hypotheses are decidable; the checkers are evaluated on every case of the correspondence run,
+   which compares the implementation's two reports with the token-wise ones where they hold. *)
+Theorem C10_reports_checked : forall refs ps,
+  separatedb refs ps = true ->
+  (disjointb refs ps = true -> unused_refs refs (flatten ps) = spec_unused refs ps) /\
+  (colon_freeb refs ps = true -> unresolved (resolve_args refs (flatten ps)) = spec_unresolved refs ps).
+Proof.
+  intros refs ps S. apply separatedb_sound in S. split; intros H.
+  - apply unused_exact; [exact S|apply disjointb_sound, H].
+  - apply unresolved_exact; [exact S|apply colon_freeb_sound, H].
+Qed.
+Print Assumptions C10_reports_checked.
+
+(* The set of references reported unused does not depend on the declaration order. *)
+Theorem C10_unused_order_independent : forall refs refs' ps a,
+  Permutation refs refs' -> separated refs ps -> disjoint refs ps ->
+  (In a (unused_refs refs (flatten ps)) <-> In a (unused_refs refs' (flatten ps))).
+Proof.
+  intros refs refs' ps a P S D.
+  assert (D' : disjoint refs' ps).
+  { intros r r' t Hr Hr'. apply D; eapply Permutation_in; try eassumption; apply Permutation_sym, P. }
+  rewrite (unused_exact refs ps S D), (unused_exact refs' ps (separated_perm _ _ _ P S) D').
+  split; apply spec_unused_perm; [exact P|apply Permutation_sym, P].
+Qed.
+Print Assumptions C10_unused_order_independent.
 
 (* non-vacuity: a stage-1 component that consumes stage1.A, stage1.AB (a name extending A),
    stage0.A (same name in another stage) and the contents of a file of stage0.B; prefix-related and
